@@ -150,3 +150,24 @@ func useHelper(n int) bool {
 
 	return true
 }
+
+// 13. induction-variable facts apply only when nothing but the Post statement changes the counter.
+func jumpy(n int) int {
+	i := 0
+	for ; i < n; i++ {
+		if i == 2 {
+			i = n + 5
+		}
+	}
+
+	return i
+}
+
+func steady(n int, xs []byte) (int, int) {
+	i, off := 0, 3
+	for ; i < n; i, off = i+1, off+2 {
+		_ = xs
+	}
+
+	return i, off
+}
